@@ -664,7 +664,32 @@ func runKeys(every int) {
 	for i := range all {
 		all[i] = i + 1
 	}
-	for _, m := range storeops.Methods {
+	issue := func(h, pg storage.Graph, c []int, m storeops.Method, sv, cp, ov int, sh shape, pgn [2]int) {
+		q := mkQ(m.Name, m.C, sv, cp, ov)
+		q.Lo, q.Hi, q.Fop, q.La, q.Max, q.Off = sh.lo, sh.hi, sh.fop, sh.la, pgn[0], pgn[1]
+		if sh.ff != "" {
+			q.Ff = sh.ff
+		}
+		recMu.Lock()
+		recPts = nil
+		recMu.Unlock()
+		res, er := read(h, q)
+		pr, pe := read(pg, q)
+		pts := append(append([]string{}, recPts...), "ret")
+		for i, at := range pts {
+			e := event{Ev: "G", Mode: "seq", Run: run, Pid: 1, At: at, First: i == 0, Kind: "r", H: 1, B: []int{}, Q: q,
+				Res: []int{}, Fault: -1, Pl: []plE{{Pid: 1, Res: pr, Err: pe}}, C: c}
+			if at == "ret" {
+				e.Res, e.Err = trace.Ints(res), er
+			}
+			tw.Emit(e)
+		}
+		stats["key_reads"]++
+		if len(pts) == 1 {
+			stats["key_hits"]++
+		}
+	}
+	fresh := func(name string) (storage.Graph, storage.Graph, []int) {
 		run++
 		ms := memoization.New(memory.NewStore())
 		twin := memory.NewStore()
@@ -675,8 +700,11 @@ func runKeys(every int) {
 		must(h.AddTriples(ctx, storeops.Batch(u, all)))
 		must(pg.AddTriples(ctx, storeops.Batch(u, all)))
 		c := listing(pg)
-		tw.Emit(event{Ev: "Reset", Mode: "seq", Run: run, B: []int{}, Res: []int{}, Fault: -1, Pl: []plE{}, C: c, Q: qx{Q: storeops.Q{M: m.Name}}})
-		ss, ps, os_ := []int{0}, []int{0}, []int{0}
+		tw.Emit(event{Ev: "Reset", Mode: "seq", Run: run, B: []int{}, Res: []int{}, Fault: -1, Pl: []plE{}, C: c, Q: qx{Q: storeops.Q{M: name}}})
+		return h, pg, c
+	}
+	args := func(m storeops.Method) (ss, ps, os_ []int) {
+		ss, ps, os_ = []int{0}, []int{0}, []int{0}
 		if m.S {
 			ss = seq(len(u.Nodes))
 		}
@@ -686,6 +714,12 @@ func runKeys(every int) {
 		if m.O {
 			os_ = seq(len(u.Objs))
 		}
+		return
+	}
+	// (a) per method: all arguments x the whole grid of option shapes and pages
+	for _, m := range storeops.Methods {
+		h, pg, c := fresh(m.Name)
+		ss, ps, os_ := args(m)
 		for _, sv := range ss {
 			for _, cp := range ps {
 				for _, ov := range os_ {
@@ -694,28 +728,36 @@ func runKeys(every int) {
 					}
 					for _, sh := range base {
 						for _, pgn := range pages {
-							q := mkQ(m.Name, m.C, sv, cp, ov)
-							q.Lo, q.Hi, q.Fop, q.La, q.Max, q.Off = sh.lo, sh.hi, sh.fop, sh.la, pgn[0], pgn[1]
-							if sh.ff != "" {
-								q.Ff = sh.ff
-							}
-							recMu.Lock()
-							recPts = nil
-							recMu.Unlock()
-							res, er := read(h, q)
-							pr, pe := read(pg, q)
-							pts := append(append([]string{}, recPts...), "ret")
-							for i, at := range pts {
-								e := event{Ev: "G", Mode: "seq", Run: run, Pid: 1, At: at, First: i == 0, Kind: "r", H: 1, B: []int{}, Q: q,
-									Res: []int{}, Fault: -1, Pl: []plE{{Pid: 1, Res: pr, Err: pe}}, C: c}
-								if at == "ret" {
-									e.Res, e.Err = trace.Ints(res), er
-								}
-								tw.Emit(e)
-							}
-							stats["key_reads"]++
-							if len(pts) == 1 {
-								stats["key_hits"]++
+							issue(h, pg, c, m, sv, cp, ov, sh, pgn)
+						}
+					}
+				}
+			}
+		}
+	}
+	// (b) across methods: ONE memoizing store answers every method with every argument tuple (a few option
+	// shapes), once with the methods in the listed order and once reversed, so that two requests of
+	// DIFFERENT methods mapped to one key (same argument UUIDs, e.g. a node and the object boxing it)
+	// are exposed whichever of the two comes first.
+	few := []shape{{ff: "predicate"}, {lo: 2, hi: 4, ff: "predicate"}, {fop: "isTemporal", ff: "predicate"}, {la: true, ff: "predicate"}}
+	fewPages := [][2]int{{0, 0}, {1, 1}}
+	for pass := 0; pass < 2; pass++ {
+		ms := append([]storeops.Method{}, storeops.Methods...)
+		if pass == 1 {
+			for i, j := 0, len(ms)-1; i < j; i, j = i+1, j-1 {
+				ms[i], ms[j] = ms[j], ms[i]
+			}
+		}
+		h, pg, c := fresh("*")
+		for _, sh := range few {
+			for _, pgn := range fewPages {
+				for _, m := range ms {
+					ss, ps, os_ := args(m)
+					for _, sv := range ss {
+						for _, cp := range ps {
+							for _, ov := range os_ {
+								issue(h, pg, c, m, sv, cp, ov, sh, pgn)
+								stats["key_cross_reads"]++
 							}
 						}
 					}
